@@ -289,6 +289,21 @@ func (in *Interp) selectOp(fr *frame, instr *ssa.Select) Value {
 				readyIdx = append(readyIdx, i)
 			}
 		}
+		// A one-shot timer created for this very wait (time.After(d), d > 0) cannot have fired yet: when
+		// another case is ready now, Go's select takes that one. Without this rule the model would let a
+		// fresh timer overtake an already closed channel, which no real schedule does.
+		if len(readyIdx) > 1 {
+			var firm []int
+			for _, i := range readyIdx {
+				ch := fr.get(instr.States[i].Chan).(*Chan)
+				if !in.modelDeferrable(ch) {
+					firm = append(firm, i)
+				}
+			}
+			if len(firm) > 0 && len(firm) < len(readyIdx) {
+				readyIdx = firm
+			}
+		}
 		if len(readyIdx) > 0 {
 			i := readyIdx[in.Choose(len(readyIdx))]
 			st := instr.States[i]
